@@ -7,7 +7,7 @@ set -u
 VERIF=$(cd "$(dirname "$0")/.." && pwd)
 MODE=${1:-reverts}; shift || true
 OUT=$(mktemp -d /tmp/vselftest-out.XXXXXX)
-RES=$VERIF/selftest-results.txt
+RES=${SELFTEST_RES:-$VERIF/selftest-results.txt}
 : > "$RES"
 run_one() { # label prop scratch
   local label=$1 prop=$2 scratch=$3
@@ -16,6 +16,7 @@ run_one() { # label prop scratch
   local rc=$?
   local sigs=$(grep -o 'signature=[^ ]*' "$log" | sort -u | head -5 | tr '\n' ' ')
   echo "$label $prop exit=$rc $sigs" | tee -a "$RES"
+  rm -rf "$VERIF/bin/alt-$(echo "$scratch" | md5sum | cut -c1-8)"
 }
 if [ "$MODE" = reverts ]; then
   python3 - "$VERIF" <<'PY' > $OUT/list.txt
@@ -53,5 +54,5 @@ else
     git -C /repo worktree remove --force "$scratch"
   done
 fi
-rm -rf "$OUT" "$VERIF"/bin/alt-* "$VERIF"/harness/go.alt-*
+rm -rf "$OUT"
 echo "results in $RES"
